@@ -95,6 +95,9 @@ def programs(w):
                                         inv["self"] = True
                                         inv["eargs"] = list(eargs)
                                         inv["ekwonly"] = 0 if rng.random() < 0.4 else None
+                                        # (a defaulted parameter which names no call value - the closure-binding idiom - keeps its default)
+                                        inv["eextra"] = rng.random() < 0.5
+                                        inv["edefaults"] = [n for n in eargs if rng.random() < 0.35]
                                         invs = [inv]
                                         m["decos"] = []
                                     classes.append(gen.chain_class(cname, [], members, invs, dbc=rng.random() < 0.5))
